@@ -144,6 +144,17 @@ def run_stog(c):
         lst2 = m.rectangles
         res2 = m.create_stog()
         judge(dict(c), lst2, res2, "Module.create_stog (second call)")
+        if c.get("mkind") == "hard" and "hard-or-fixed-module" in cls:
+            # the global floorplanner builds one-rectangle hard modules around the SAME rectangle objects (optimize_allocation): the
+            # module they belong to is still reported as before
+            from frame.netlist.module import Module
+            for k, r in enumerate(list(m.rectangles)):
+                fake = Module("M_%d" % k, hard=True)
+                fake.add_rectangle(r)
+                fake.setup()
+                fake.calculate_center_from_rectangles()
+            judge(dict(c), m.rectangles, m.has_stog, "has_stog after one-rectangle modules were built around the same rectangle objects")
+            cls.append("rectangles-shared-with-other-modules")
         # the rectangles are edited in place (one moved, or one added) and the module is recognised again: the verdict
         # and the roles must follow the new geometry, not the earlier recognition
         ed = c.get("edit")
@@ -310,4 +321,4 @@ def subchecks():
     return [Sub("lists", run_stog, strategy=stog_s(), n_quick=40000, n_thorough=1000000, fuzz_thorough=20000,
                 required=("stog", "not-stog", "several-trunks", "mut-gap", "mut-overhang", "mut-overlap", "mut-dup-trunk",
                           "mut-dup-branch", "mut-extra", "direct", "netlist", "duplicates", "edited-then-recognised-again", "moved-through-the-point-object", "reduced-to-one-rectangle", "module-without-rectangles-listed-before", "far-from-origin",
-                          "hard-or-fixed-module-with-several-rectangles"))]
+                          "hard-or-fixed-module-with-several-rectangles", "rectangles-shared-with-other-modules"))]
